@@ -287,8 +287,13 @@ def handleOpt (st : DrvState) (toks : List String) : Option (DrvState × String)
         | some (cfg', s) => pure (.coll cfg' s, "ok")
         | none => pure (.none, "panic")
       | none =>
+        -- W / icpt / init given as a record: the constructor on the option list they stand for
         let init ← parseInit? ((kvGet kv "init").getD "")
-        pure (.coll cfg (Coll.init cfg init rng), "ok")
+        let opts : List (ResOpt Msg Mask) :=
+          [.writable cfg.writable, .icpt cfg.icpt] ++ init.map (fun kv => .initialRecord kv.1 kv.2)
+        match Coll.newO cfg opts rng with
+        | some (cfg', s) => pure (.coll cfg' s, "ok")
+        | none => pure (.none, "panic")
     | "newv", _ =>
       let cfg ← parseCfg? kv
       match kvGet kv "res" with
